@@ -22,6 +22,11 @@ def parents(W, tier):
         out.append((f"concat{k}+{W-k}", cat(sig(f"a{k}"), sig(f"c{W - k}")), "unit"))
     if W >= 2:
         out.append(("concat_of_slices", cat(rng(sig(f"b{W + 2}"), 2, 3), rng(sig(f"b{W + 2}"), 0, W - 1)), "unit"))
+    if W >= 3:
+        # a part that is itself a multi-part concatenation, and one that is a part-spanning slice of a concatenation
+        out.append(("concat_of_concat", cat(cat(sig("a1"), sig(f"c{W - 2}")), rng(sig(f"b{W + 2}"), 0, 1)) if W - 2 >= 1 else None, "unit"))
+        out.append(("concat_with_spanning_slice", cat(rng(cat(sig(f"a{W - 1}"), sig("c1")), 1, W), rng(sig(f"b{W + 2}"), 3, 4)), "unit"))
+    out = [o for o in out if o[1] is not None]
     out.append(("portref", pref("j", "a"), "unit"))
     out.append(("bundleref", bref("bb", "m"), "unit"))
     # nested, non-unit-step inner parents: everything on top of them is raise-or-correct
